@@ -3,7 +3,7 @@
    What is modelled (webob at the pinned commit plus fixes/C01-*.patch; the pinned behaviour
    of the two repaired spots is kept selectable through [cfg], see [pinned] / [repaired]):
      descriptors.py:16-45   environ_getter (with / without default): get, set, set None, del
-     etag.py:14-34          etag_property: set None stores None, del
+     etag.py:14-34          etag_property: set None removes the key (fixes/C01-6), del
      acceptparse.py:1726-85 accept*_property: set None = silent del
      request.py:287-315     content_type get / set (parameter preservation) / del
      request.py:654-669     host get / set / del
@@ -351,7 +351,7 @@ Section EnvView.
     | OGetterDel k => if env_has k e then (VNone, with_env s (env_del k e)) else (VErr KeyErr, s)
     | OReqSet k v => (VNone, with_env s (env_set k (EStr v) e))
     | OEtagSet k (Some v) => (VNone, with_env s (env_set k (EStr v) e))
-    | OEtagSet k None => (VNone, with_env s (env_set k ENone e))
+    | OEtagSet k None => (VNone, with_env s (env_del k e))      (* fixes/C01-6 (before: environ[k] = None) *)
     | OAcceptSet k (Some v) => (VNone, with_env s (env_set k (EStr v) e))
     | OAcceptSet k None => (VNone, with_env s (env_del k e))
     | OContentTypeSet None => (VNone, with_env s (env_del K_CT e))
